@@ -343,6 +343,23 @@ class FakeSnowflakeCursor:
                     info_schema.delete_table_ext_sql(catalog, schema, None if cmd == "DROP SCHEMA" else table.name)
                 )
 
+        if cmd == "ALTER TABLE" and isinstance(transformed, exp.Alter) and isinstance(transformed.this, exp.Table):
+            # dropped and renamed columns, and a renamed table, take their recorded comment and text lengths along
+            table = transformed.this
+            catalog, schema = table.catalog or self._conn.database, table.db or self._conn.schema
+            for action in (transformed.args.get("actions") or []) if catalog and schema else []:
+                if isinstance(action, exp.Drop) and action.args.get("kind") == "COLUMN":
+                    ext_sql = info_schema.delete_column_ext_sql(catalog, schema, table.name, action.this.name)
+                elif isinstance(action, exp.RenameColumn) and action.this.name != action.args["to"].name:
+                    ext_sql = info_schema.rename_column_ext_sql(
+                        catalog, schema, table.name, action.this.name, action.args["to"].name
+                    )
+                elif isinstance(action, exp.RenameTable) and action.this.name != table.name:
+                    ext_sql = info_schema.rename_table_ext_sql(catalog, schema, table.name, action.this.name)
+                else:
+                    continue
+                self._duck_conn.execute(ext_sql)
+
         if (table_comment := cast(tuple[exp.Table, str], transformed.args.get("table_comment"))) and table_comment[
             1
         ] is not None:
